@@ -769,7 +769,7 @@ def download_gunzip_lines(remote):
     try:
         os.close(handle)
         (filename, _) = urlretrieve(remote, fname)
-        with gzip.open(filename, 'rt') as gfile:
+        with gzip.open(filename, 'rt', encoding="UTF-8", newline='\n') as gfile:
             lines = gfile.readlines()
     finally:
         os.unlink(fname)
@@ -803,7 +803,9 @@ def update_file(remote, local, verbose=False):
     """
 
     try:
-        with open(local, 'r', encoding="UTF-8") as local_file:
+        # newline='\n': the content is hashed and patched line by line, so
+        # it must be read without translating CR LF or CR to LF
+        with open(local, 'r', encoding="UTF-8", newline='\n') as local_file:
             lines = local_file.readlines()
     except (IOError, UnicodeError):
         if verbose:
